@@ -74,8 +74,10 @@ ASSUMPTIONS = [
     "the Friis comparison (0.01 dB, fixed by the property) uses "
     "c = 299792458 m/s; the library constant corresponds to c = 3e8, a "
     "constant 0.006 dB offset that is inside the stated 0.01 dB",
-    "shadowing (use_shadow_bool) stays off: the property is about the "
-    "deterministic loss",
+    "shadowing (use_shadow_bool) stays off for all value comparisons: the "
+    "property is about the deterministic loss; a sixth of the steps makes "
+    "one shadowed query, judged only by the policy (never a negative loss "
+    "or a linear value above 1)",
     "python lists of distances are passed only to the PathLossGeneral "
     "family (as the unit tests do); OkomuraHata/MetisPS7 get numpy arrays",
 ]
@@ -179,6 +181,9 @@ def _pathloss_strategy(tier):
                          "general", "freespace", "3gpp1") else forms_any),
                      int_scalars=draw(bools), rmw=draw(bools),
                      inverse_first=draw(bools), np_scalars=draw(bools),
+                     # a shadowed query (random log-normal term switched on
+                     # for one query, then off again)
+                     shadow=draw(st.integers(0, 5)) == 0,
                      plot=draw(bools) and draw(bools))
             if model == "metis":
                 s["omit_kw"] = draw(bools)
@@ -594,6 +599,57 @@ def _query(ctx, P, obj, p, policy, model, step, nset):
                   "object %r" % (model, nset, p, ds[i], R[i], R2[i]), t)
 
 
+def _shadowed_query(ctx, obj, model, p, policy, step, nset):
+    """with shadowing the loss is random, but what is returned still obeys
+    the policy: a value that ends up negative is clamped to 0 dB (linear 1)
+    or the call raises - never a negative loss / a linear value above 1"""
+    A0, B0 = _coeffs(model, p, 0)
+    rs = np.random.RandomState(nset * 7919 + len(step["d"]))
+    # distances whose deterministic loss is 0.5 .. 30 dB: with sigma 8 dB
+    # the shadowed value is negative for a good part of them
+    d = 10.0 ** (-B0 / A0 + rs.uniform(0.5, 30.0, size=24) / A0)
+    if not np.all((d > 1e-300) & (d < 1e300)):
+        return
+    kw = dict(num_walls=0) if model == "metis" else {}
+    tags = dict(model=model, policy=bool(policy), nset=min(nset, 3),
+                shadow=True)
+    np.random.seed(int(rs.randint(0, 2 ** 31 - 1)))
+    obj.sigma_shadow = 8.0
+    obj.use_shadow_bool = True
+    try:
+        for form in ("array", "scalar"):
+            try:
+                if form == "array":
+                    r = np.asarray(obj.calc_path_loss_dB(d.copy(), **kw),
+                                   dtype=float)
+                    lin = np.asarray(obj.calc_path_loss(d.copy(), **kw),
+                                     dtype=float)
+                else:
+                    r = np.array([float(obj.calc_path_loss_dB(float(x), **kw))
+                                  for x in d[:6]])
+                    lin = np.array([float(obj.calc_path_loss(float(x), **kw))
+                                    for x in d[:6]])
+            except RuntimeError:
+                if policy:
+                    raise Violation("small_distance_raised", "a shadowed "
+                                    "query raised although "
+                                    "handle_small_distances_bool is True",
+                                    tags)
+                ctx.label("shadow:raised(policy off)")
+                continue
+            if not (np.all(r >= 0.0) and np.all(lin > 0.0) and
+                    np.all(lin <= 1.0)):
+                raise Violation("linear_range", "shadowed %s query: loss "
+                                "%.6g dB .. %.6g dB, linear up to %.6g (policy "
+                                "%s)" % (form, float(r.min()), float(r.max()),
+                                         float(lin.max()),
+                                         "clamp" if policy else "raise"),
+                                tags)
+            ctx.label("shadow:" + form)
+    finally:
+        obj.use_shadow_bool = False
+
+
 def _check_pathloss(case, ctx):
     from pyphysim.channels import pathloss as P
     model = case["model"]
@@ -641,6 +697,10 @@ def _check_pathloss(case, ctx):
                     setattr(obj, attr, got)
             if step.get("rmw"):
                 ctx.label("read_modify_write")
+            if step.get("shadow") and not (
+                    model == "hata" and p["area"] == "large city"
+                    and p["fc"] == 300.0):
+                _shadowed_query(ctx, obj, model, p, policy, step, nset)
             if step.get("inverse_first") and model in OFFERS_INVERSE:
                 # the distance-for-a-loss query as the FIRST call after the
                 # setters, judged against the lock-step model (not against
